@@ -120,8 +120,8 @@ def _polarity_guard(ctx):
         return
     m = ctx.model
     cache["v"] = True
-    if "_pytree_type._MetaPyTree._check" in m.functions:
-        return
+    if "_pytree_type._MetaPyTree._check" in m.functions and "_pytree_type._MetaPyTree._check" not in getattr(m, "changed_functions", ()):
+        return  # (a function renamed back by the normalisation pass is a changed function)
     ic = m.functions.get("_pytree_type._MetaPyTree.__instancecheck__")
     if ic is None:
         return
@@ -211,6 +211,13 @@ def check_unbound_composite(ctx):
             last = h.body[-1] if h.body else None
             if isinstance(last, ast.Raise) and isinstance(last.exc, ast.Call) and norm(last.exc.func) == "AnnotationError":
                 ok = True
+            elif isinstance(last, ast.Raise) and isinstance(last.exc, ast.Name):
+                # `err = AnnotationError(..); err.name = ..; raise err from e`: what the local was bound to in this handler
+                ds = [a_ for a_ in ast.walk(h) if isinstance(a_, ast.Assign) and any(isinstance(tg, ast.Name) and tg.id == last.exc.id for tg in a_.targets)]
+                if ds and all(isinstance(a_.value, ast.Call) and norm(a_.value.func) == "AnnotationError" for a_ in ds):
+                    ok = True
+                elif not ds:
+                    raise AnalysisError(f"C09.1: `{short(last, 50)}` raises a local that is not bound in the handler; what it is was not followed")
         if not ok:
             what = short(hk[0].body[-1], 50) if hk and hk[0].body else "no KeyError handler"
             ctx.bad("C09.1", f, t, f"a structure name that is not bound yet inside a composite structure does not raise AnnotationError (handler does `{what}`): the check "
